@@ -16,6 +16,7 @@ import (
 
 	"github.com/sourcenetwork/immutable"
 
+	acpTypes "github.com/sourcenetwork/defradb/acp/types"
 	"github.com/sourcenetwork/defradb/client"
 	"github.com/sourcenetwork/defradb/client/request"
 	"github.com/sourcenetwork/defradb/errors"
@@ -23,6 +24,7 @@ import (
 	coreblock "github.com/sourcenetwork/defradb/internal/core/block"
 	"github.com/sourcenetwork/defradb/internal/datastore"
 	"github.com/sourcenetwork/defradb/internal/db/fetcher"
+	"github.com/sourcenetwork/defradb/internal/db/permission"
 	"github.com/sourcenetwork/defradb/internal/keys"
 	"github.com/sourcenetwork/defradb/internal/planner/mapper"
 )
@@ -253,6 +255,16 @@ func (n *dagScanNode) Next() (bool, error) {
 		}
 	}
 
+	hasAccess, err := n.hasReadAccess(dagBlock)
+	if err != nil {
+		return false, err
+	}
+	if !hasAccess {
+		// The commits of a document that can not be read must not be yielded, nor traversed.
+		n.visitedNodes[currentCid.String()] = true
+		return n.Next()
+	}
+
 	currentValue, err := n.dagBlockToNodeDoc(dagBlock)
 	if err != nil {
 		return false, err
@@ -336,6 +348,42 @@ which returns the current dag commit for the stored CRDT value.
 
 All the dagScanNode endpoints use similar structures
 */
+
+// hasReadAccess returns true if the requesting identity is allowed to read the document
+// that the given block belongs to.
+func (n *dagScanNode) hasReadAccess(block *coreblock.Block) (bool, error) {
+	if !n.planner.documentACP.HasValue() {
+		return true, nil
+	}
+
+	docID := block.Delta.GetDocID()
+	if len(docID) == 0 {
+		return true, nil
+	}
+
+	cols, err := n.planner.db.GetCollections(
+		n.planner.ctx,
+		client.CollectionFetchOptions{
+			IncludeInactive: immutable.Some(true),
+			VersionID:       immutable.Some(block.Delta.GetSchemaVersionID()),
+		},
+	)
+	if err != nil {
+		return false, err
+	}
+	if len(cols) == 0 {
+		return false, client.NewErrCollectionNotFoundForCollectionVersion(block.Delta.GetSchemaVersionID())
+	}
+
+	return permission.CheckAccessOfDocOnCollectionWithACP(
+		n.planner.ctx,
+		n.planner.identity,
+		n.planner.documentACP.Value(),
+		cols[0],
+		acpTypes.DocumentReadPerm,
+		string(docID),
+	)
+}
 
 func (n *dagScanNode) dagBlockToNodeDoc(block *coreblock.Block) (core.Doc, error) {
 	commit := n.commitSelect.DocumentMapping.NewDoc()
